@@ -1224,6 +1224,40 @@ pub fn gen_c13(r: &mut Rng, id: usize) -> Group {
     if r.chance(10) {
         return gen_c13_bindings(r, id);
     }
+    if r.chance(8) {
+        // the enclosing inputs are the same in every position: after --split-by, an expression that reads the record the
+        // element came from (`^`), as the FIRST selection (the reference), as a later selection, as sort key, as group key
+        let e = r.ps(&["(concat ^.k \"-\" (stringify .))", "(concat (stringify .) \"/\" ^.k)", "(concat ^.k ^.k)"]);
+        let mut text = String::new();
+        for _ in 0..r.range(1, 5) {
+            let items: Vec<String> = (0..r.range(0, 4)).map(|_| r.below(4).to_string()).collect();
+            text.push_str(&format!("{{\"k\":\"{}\",\"l\":[{}]}}\n", r.ps(&["a", "b", "c"]), items.join(",")));
+        }
+        let mk = |name: &str| {
+            let mut c = case(format!("C13-{id}-{name}"));
+            c.spec.split = Some(".l".into());
+            c.sources.push(stdin_src(text.clone().into_bytes()));
+            c
+        };
+        let mut first = mk("first");
+        first.spec.selects.push(format!("{e}=x"));
+        let mut later = mk("later");
+        later.spec.selects.push(".=e".into());
+        later.spec.selects.push("(+ . 1)=f".into());
+        later.spec.selects.push(format!("{e}=x"));
+        let mut sorted = mk("sort");
+        sorted.spec.selects.push(".=e".into());
+        sorted.spec.selects.push(format!("{e}=x"));
+        sorted.spec.sorts.push(e.to_string());
+        let mut grouped = mk("group");
+        grouped.spec.selects.push(".=e".into());
+        grouped.spec.group = Some(Some(e.to_string()));
+        let mut g = Group::new(vec![first, later, sorted, grouped]);
+        g.tag = "parentpos".into();
+        g.nontrivial = true;
+        g.labels.push("kind:parent-in-position".into());
+        return g;
+    }
     if r.chance(10) {
         // the bindings in scope are the same in every position: an expression over `--set` variables and macros, in
         // each of the five option positions, against the same expression with the bound values written out
@@ -1484,6 +1518,13 @@ pub fn gen_c14(r: &mut Rng, id: usize) -> Group {
         // every list a singleton: a Break answered on the LAST element of a split list must still stop the read loop
         b"{\"id\":@@@@@@,\"k\":1,\"j\":2,\"g\":\"x\",\"l\":[{\"id\":@@@@@@,\"k\":1,\"j\":2,\"t\":0}]}\n".to_vec()
     });
+    // values need not sit on lines of their own: the endless tail may never contain a line feed at all
+    if let Some(t) = c.endless.as_mut() {
+        let sep = *r.pick(&[b'\n', b'\n', b' ', b'\t', b'\r']);
+        if let Some(last) = t.last_mut() {
+            *last = sep;
+        }
+    }
     let mut g = Group::new(vec![c]);
     g.values = rows;
     g
@@ -1530,7 +1571,9 @@ pub fn gen_c15(r: &mut Rng, id: usize) -> Group {
     // column titles: mostly the key, sometimes a title with characters the header row has to quote
     let titles = ["na me", "q\"t", "a,b", "é", "x=y", "t\tab", "'s'"];
     for i in 0..n_sel {
-        let title = if r.chance(25) { format!("{}{}", titles[r.below(titles.len())], i) } else { names[i].to_string() };
+        // (now and then a title that an earlier column already has: every selection still is a column of its own)
+        let title = if i > 0 && r.chance(12) { "same".to_string() } else if r.chance(25) { format!("{}{}", titles[r.below(titles.len())], i) } else { names[i].to_string() };
+        let title = if i == 0 && n_sel > 1 && r.chance(20) { "same".to_string() } else { title };
         c.spec.selects.push(format!(".{}={}", names[i], title));
     }
     let csv = r.chance(55);
@@ -1584,7 +1627,20 @@ pub fn gen_c15(r: &mut Rng, id: usize) -> Group {
 pub fn gen_c16(r: &mut Rng, id: usize) -> Group {
     let u = key_universe_small();
     let rows = { let n_ = r.range(1, 8); gen_rows(r, n_, &u) };
-    let (bytes, _) = stream_of(r, &rows, false);
+    let (mut bytes, _) = stream_of(r, &rows, false);
+    // malformed regions (between values, at the end, or nothing else at all): under --on-error=stdout the reports are part
+    // of the output, and a write that fails inside a report is a write failure like any other
+    let noisy = r.chance(35);
+    if noisy {
+        if r.chance(25) {
+            bytes.clear();
+        }
+        for _ in 0..r.range(1, 4) {
+            bytes.push(b' ');
+            bytes.extend_from_slice(&garbage_token(r));
+        }
+        bytes.push(b'\n');
+    }
     let mut base = case(format!("C16-{id}-base"));
     let p = PipeOpts { text: true, ..Default::default() };
     base.spec = gen_pipe_spec(r, &p);
@@ -1636,6 +1692,9 @@ pub fn gen_c16(r: &mut Rng, id: usize) -> Group {
     g.values = rows;
     g.nontrivial = off > 0 && off < bytes.len();
     g.labels.push(format!("policy:{}", base.spec.on_error.clone().unwrap()));
+    if noisy {
+        g.labels.push("input:noisy".into());
+    }
     g
 }
 
@@ -2047,6 +2106,15 @@ pub fn gen_c20(r: &mut Rng, id: usize) -> Group {
             noise += 1;
         }
     }
+    // malformed bytes with no value around them at all: then the reports are the only thing the run has to write
+    if r.chance(15) {
+        if r.chance(50) {
+            bytes.clear();
+        }
+        bytes.extend_from_slice(&garbage_token(r));
+        bytes.push(b'\n');
+        noise += 1;
+    }
     let mut c = case(format!("C20-{id}"));
     c.mode = "main".into();
     c.spec.on_error = Some(r.ps(&["ignore", "panic", "stderr", "stdout"]).to_string());
@@ -2406,6 +2474,35 @@ pub fn oracle(prop: &str, g: &Group, obs: &[Obs]) -> Option<String> {
                 }
                 return None;
             }
+            if g.tag == "parentpos" {
+                if obs.iter().any(|o| o.res != "ok") {
+                    return Some(format!("{}: runs gave {:?}", g.cases[0].id, obs.iter().map(|o| o.res.clone()).collect::<Vec<_>>()));
+                }
+                let xs = |o: &Obs| -> Option<Vec<String>> {
+                    Some(parse_rows(&o.out, "\n").ok()?.iter().map(|r| match get_key(r, "x") { Some(V::Str(s)) => s.clone(), _ => "<absent>".into() }).collect())
+                };
+                let reference = xs(&obs[0])?;
+                let later = xs(&obs[1])?;
+                if later != reference {
+                    return Some(format!("{}: as the first selection the expression gives {reference:?}, as a later selection {later:?}", g.cases[0].id));
+                }
+                let mut want = reference.clone();
+                want.sort(); // stable, by code point: the strings here are ASCII
+                let sorted = xs(&obs[2])?;
+                if sorted != want {
+                    return Some(format!("{}: as sort key the expression orders the rows {sorted:?}; by its values as first selection the order is {want:?}", g.cases[0].id));
+                }
+                let mut keys: Vec<String> = vec![];
+                for x in &reference {
+                    if !keys.contains(x) { keys.push(x.clone()); }
+                }
+                let grouped = parse_rows(&obs[3].out, "\n").ok()?;
+                let got: Vec<String> = match grouped.first() { Some(V::Obj(m)) => m.iter().map(|(k, _)| k.clone()).collect(), _ => vec![] };
+                if got != keys {
+                    return Some(format!("{}: as group key the expression gives the groups {got:?}; its values as first selection are {keys:?}", g.cases[0].id));
+                }
+                return None;
+            }
             if g.tag == "boundpos" {
                 let (a, b) = (&obs[0], &obs[1]);
                 if a.res != b.res {
@@ -2551,6 +2648,35 @@ pub fn oracle(prop: &str, g: &Group, obs: &[Obs]) -> Option<String> {
                         }
                     }
                     prev_end = Some((el, ec));
+                }
+            }
+            // the input is the same input when the file argument is not a regular file: the executable reading its standard
+            // input through the path /dev/stdin (a pipe: length 0, not seekable) gives the rows of the plain standard-input run
+            {
+                use std::hash::{Hash, Hasher};
+                let mut h = std::collections::hash_map::DefaultHasher::new();
+                g.cases[0].id.hash(&mut h);
+                if h.finish() % 100 < 12 && whole.res == "ok" {
+                    let c = &g.cases[0];
+                    let argv = c.argv("/nonexistent");
+                    let input = &c.sources[0].bytes;
+                    let mut with_path: Vec<String> = argv[1..].to_vec();
+                    with_path.push("/dev/stdin".into());
+                    if let (Ok(plain), Ok(path)) = (crate::oracle_b::spawn_jawk(&argv[1..], input, crate::oracle_b::StdoutKind::Pipe),
+                                                    crate::oracle_b::spawn_jawk(&with_path, input, crate::oracle_b::StdoutKind::Pipe)) {
+                        let cols = |out: &[u8]| -> Option<Vec<(Option<V>, Option<V>, Option<V>)>> {
+                            Some(parse_rows(out, "\n").ok()?.iter().map(|r| (get_key(r, "v").cloned(), get_key(r, "i").cloned(), get_key(r, "f").cloned())).collect())
+                        };
+                        if plain.code == Some(0) {
+                            if path.code != Some(0) {
+                                return Some(format!("{}: the executable reads these bytes from standard input, but fails on them through the path /dev/stdin (status {:?})", c.id, path.code));
+                            }
+                            if cols(&plain.out) != cols(&path.out) {
+                                return Some(format!("{}: {} rows from standard input, {} rows from the same bytes through the path /dev/stdin (a pipe, not a regular file)",
+                                                    c.id, cols(&plain.out).map(|x| x.len()).unwrap_or(0), cols(&path.out).map(|x| x.len()).unwrap_or(0)));
+                            }
+                        }
+                    }
                 }
             }
             // files f1..fn: the values of f1, then f2, …; no value spans two files (a value cut by a file boundary is
